@@ -19,6 +19,7 @@ json gen_family_text(Rng &r, int tier)
 	sg.pcb = r.chance(1, 2);
 	sg.vcb = r.chance(1, 3);
 	sg.keystrval = true;
+	sg.simple = true;
 	sg.max_opts = 6;
 	json schema = gen_schema(r, sg);
 	plan["schemas"] = json::array({schema});
@@ -88,6 +89,7 @@ json gen_family_api(Rng &r, int tier)
 	sg.vcb = r.chance(1, 3);
 	sg.vcb2 = r.chance(1, 3);
 	sg.keystrval = true;
+	sg.simple = true;
 	sg.max_opts = 6;
 	json schema = gen_schema(r, sg);
 	plan["schemas"] = json::array({schema});
